@@ -686,6 +686,10 @@ func Emit(p *ps.Program, pkg, fnsPkg string) *Files {
 		hdr.WriteString("//go:build cff\n\n")
 	}
 	fmt.Fprintf(&hdr, "package %s\n\nimport (\n\t\"context\"\n", pkg)
+	if p.PID%6 == 1 {
+		// a blank import (kept for its side effects): the generated file must keep it
+		hdr.WriteString("\t_ \"embed\"\n")
+	}
 	if reErrs.MatchString(body) {
 		hdr.WriteString("\t\"errors\"\n")
 	}
